@@ -15,6 +15,8 @@ from __future__ import annotations
 
 import ast
 
+from sa.core import register_cache  # noqa: E402
+
 from sa.core import AnalysisError, ClassInfo, attr_chain, chain_root, enclosing, norm, parents, resolve_callee, src, walk_no_nested
 
 from . import common
@@ -110,6 +112,25 @@ def r1(p, rep):
                         for n in ast.walk(st):
                             if isinstance(n, ast.Attribute) and isinstance(n.ctx, ast.Store) and isinstance(n.value, ast.Name) and n.value.id == s:
                                 protected.add(n.attr)
+            if not protected:
+                # no store inside any locked region: the regions still say what they guard by what they READ of self -
+                # an attribute read under the lock and replaced by some method of the class is the guarded state
+                # (`with self.lock: new = f(self.state)` ... `self.state = new` after the block is the defect, not a
+                # reason to find nothing to check)
+                read_locked, stored_anywhere = set(), set()
+                for name, f in c.methods.items():
+                    s = self_name(f)
+                    if name == "__init__" or s is None:
+                        continue
+                    for reg, body in locked_regions(f, s, lock):
+                        for st in body:
+                            for n in ast.walk(st):
+                                if isinstance(n, ast.Attribute) and isinstance(n.ctx, ast.Load) and isinstance(n.value, ast.Name) and n.value.id == s and n.attr != lock:
+                                    read_locked.add(n.attr)
+                    for n in ast.walk(f.node):
+                        if isinstance(n, ast.Attribute) and isinstance(n.ctx, ast.Store) and isinstance(n.value, ast.Name) and n.value.id == s:
+                            stored_anywhere.add(n.attr)
+                protected = read_locked & stored_anywhere
             if not protected:
                 continue
             found = True
@@ -716,7 +737,7 @@ def r6(p, rep):
     return n
 
 
-_ESTABLISH = {}
+_ESTABLISH = register_cache({})
 
 
 def _establishes(p, g, names, depth=0):
